@@ -44,7 +44,7 @@ class CallMixin:
                 continue
             want_args = self.arg_wants(f, n)
             for st2, args in self.ev_args(n.args, want_args, st1, sink):
-                for st3, kwvals in self.ev_list([k.value for k in n.keywords], st2, sink):
+                for st3, kwvals in self.ev_kwargs(f, n.keywords, st2, sink):
                     kwargs = {k.arg: v for k, v in zip(n.keywords, kwvals)}
                     self._arg_nodes = (list(n.args), {k.arg: k.value for k in n.keywords})
                     yield from self.apply(f, args, kwargs, st3, sink, n)
@@ -67,6 +67,19 @@ class CallMixin:
             st1 = st1.set_meta("want", st.meta.get("want")) if w is not None else st1
             for st2, rest in self.ev_args(nodes[1:], wants[1:] if wants else None, st1, sink):
                 yield st2, [v] + rest
+
+    def ev_kwargs(self, f, keywords, st, sink):
+        """keyword arguments, each evaluated with the callee's parameter type as the expected type"""
+        c = None
+        if f.ty is T.FUN and isinstance(f.z, FunV) and f.z.kind == "contract":
+            c = self.contracts.get(f.z.key)
+        elif f.ty is T.PY:
+            c = self.contract_for_pyobj(f.z)
+            if c is None and isinstance(f.z, type):
+                c = self.contracts.get(f"{f.z.__module__}:{f.z.__qualname__}.__init__")
+        wants = [(c.params.get(k.arg) if c is not None else None) for k in keywords]
+        wants = [w if isinstance(w, T.Ty) else None for w in wants]
+        yield from self.ev_args([k.value for k in keywords], wants, st, sink)
 
     def arg_wants(self, f, n):
         c = None
